@@ -115,14 +115,7 @@ func runC18(c *Ctx) {
 				if !ok || call.Call.StaticCallee() == nil || core.FullName(call.Call.StaticCallee()) != "context.WithValue" || len(call.Call.Args) != 3 {
 					return
 				}
-				v := core.StripConv(call.Call.Args[2])
-				for {
-					if cv, ok := v.(*ssa.Convert); ok {
-						v = core.StripConv(cv.X)
-						continue
-					}
-					break
-				}
+				v := core.NewResolver(true).V(call.Call.Args[2]) // through a helper such as nextCid()
 				src := "other"
 				switch x := v.(type) {
 				case *ssa.Call:
@@ -222,7 +215,7 @@ func runC18(c *Ctx) {
 		n := 0
 		core.EachInstr(fn, func(in ssa.Instruction) {
 			call, ok := in.(*ssa.Call)
-			if !ok || call.Call.StaticCallee() == nil || call.Call.StaticCallee().Name() != pair[1] || len(call.Call.Args) < 2 {
+			if !ok || call.Call.StaticCallee() == nil || core.FnName(call.Call.StaticCallee()) != pair[1] || len(call.Call.Args) < 2 {
 				return
 			}
 			n++
@@ -246,13 +239,14 @@ func runC18(c *Ctx) {
 			}
 			n++
 			keyArg := core.Path(call.Call.Args[1])
-			val := core.StripConv(call.Call.Args[2])
+			res := core.NewResolver(false) // the id may be read through a helper (cidFromContext(source))
+			val := res.V(call.Call.Args[2])
 			okv := false
 			detail := describeVal(val)
 			if ex, isEx := val.(*ssa.Extract); isEx && ex.Index == 0 {
 				if ta, isTA := ex.Tuple.(*ssa.TypeAssert); isTA {
-					if vc, isCall := ta.X.(*ssa.Call); isCall && vc.Call.IsInvoke() && vc.Call.Method.Name() == "Value" {
-						src, isP := core.StripConv(vc.Call.Value).(*ssa.Parameter)
+					if vc, isCall := res.V(ta.X).(*ssa.Call); isCall && vc.Call.IsInvoke() && vc.Call.Method.Name() == "Value" {
+						src, isP := res.V(vc.Call.Value).(*ssa.Parameter)
 						okv = isP && len(al.Params) > 1 && src == al.Params[1] && len(vc.Call.Args) == 1 && core.Path(vc.Call.Args[0]) == keyArg
 						detail = "value read from " + core.Path(vc.Call.Value) + " under key " + core.Path(vc.Call.Args[0])
 					}
@@ -340,7 +334,7 @@ func runC18(c *Ctx) {
 			sink := pair[1]
 			reachOnce(fn, func(in ssa.Instruction) bool {
 				call, ok := in.(*ssa.Call)
-				return ok && call.Call.StaticCallee() != nil && call.Call.StaticCallee().Name() == sink
+				return ok && call.Call.StaticCallee() != nil && core.FnName(call.Call.StaticCallee()) == sink
 			}, sink)
 		}
 	}
